@@ -20,7 +20,7 @@ from . import scope_render as R
 STOP = "annotate_types"
 WATCHDOG_S = 90
 _emb = None
-_ANON_T = re.compile(r"^EmbossReservedAnonymous\d+$")
+_ANON_T = re.compile(r"^EmbossReservedAnonymous(Field)?\d+$")
 _ANON_F = re.compile(r"^emboss_reserved_anonymous_field_\d+$")
 
 
@@ -161,7 +161,7 @@ def _harvest(ir, regions):
 def run_program(prog):
     files, regions = R.render(prog)
     main = "m.emb"
-    obs = {"exc": "", "errors": [], "late": [], "late_run": False, "defs": [], "refs": []}
+    obs = {"exc": "", "errors": [], "late": [], "late_run": False, "late_exc": "", "defs": [], "refs": []}
     res = _compile(files, main, STOP)
     if res["exc"]:
         obs["exc"] = res["exc"]
@@ -179,7 +179,7 @@ def run_program(prog):
     res2 = _compile(files, main, None)
     obs["late_run"] = True
     if res2["exc"]:
-        obs["exc"] = "late " + res2["exc"]
+        obs["late_exc"] = res2["exc"]      # a crash of a later pass: not a question of name resolution
     elif res2["errors"]:
         obs["late"] = _groups(res2["errors"], regions)
     return {"id": prog["id"], "obs": obs, "files": files}
